@@ -151,7 +151,8 @@ func (g *GaussianSampler) read(pol Poly, f func(a, b, c uint64) uint64) {
 				/* #nosec G115 -- sign is 0 or 1 */
 				normInt.Mul(normInt, bignum.NewInt(2*int64(sign)-1))
 
-				if normInt.Cmp(boundInt) < 1 {
+				// The bound applies to the magnitude (normInt is already signed)
+				if normInt.CmpAbs(boundInt) < 1 {
 					break
 				}
 			}
